@@ -31,7 +31,7 @@ let parse_proc (s : string) : proc_d =
 let executed (d : doc_d) : int list =
   let n = String.length d.tests in
   if d.cram then List.init n (fun i -> i) else begin
-    let rec go i = if i >= n then [] else if d.tests.[i] = 'S' || d.tests.[i] = 'T' then [i] else i :: go (i + 1) in go 0
+    let rec go i = if i >= n then [] else if d.tests.[i] = 'S' || d.tests.[i] = 'T' || d.tests.[i] = 'Z' then [i] else i :: go (i + 1) in go 0
   end
 let nexps c = match c with 'P' | 'V' | 'O' | 'C' | 'N' -> 1 | _ -> 0
 let dollar_line (d : doc_d) (t : int) : int =
